@@ -986,6 +986,14 @@ impl Opcode for SLoad {
         let storage = vm.state()?.storage_mut();
         let result = storage.load(&key);
 
+        // The storage wraps what it returns without knowing the configured value size
+        // limit, so the limit is applied here as it is for every other instruction result
+        let result = if result.size() > vm.config().value_size_limit {
+            RSV::new_value(vm.instruction_pointer()?, result.provenance())
+        } else {
+            result
+        };
+
         // Write it into the stack
         vm.stack_handle()?.push(result)?;
 
